@@ -38,25 +38,26 @@ func (g *jsGen) fnScope() *jsScope {
 }
 
 type jsGen struct {
-	r            *core.Rand
-	strict       bool
-	module       bool
-	sc           *jsScope
-	depth        int
-	fnDepth      int
-	inLoop       int
-	inFunc       int
-	simpleParams bool // the innermost generated parameter list has no defaults, patterns or rest
-	labels       []string
-	site         int
-	budget       int
-	counter      map[string]int
-	inGen        bool
-	inAsync      bool
-	inClassCtor  bool
-	inClass      int
-	sloppy       bool // program-level mode
-	inObjMethod  int  // guard js-objmethod-nested-object: no identifier-valued object literals inside methods of object literals
+	r             *core.Rand
+	strict        bool
+	module        bool
+	sc            *jsScope
+	depth         int
+	fnDepth       int
+	inLoop        int
+	inFunc        int
+	simpleParams  bool // no parameter list generated so far has defaults, patterns or rest
+	nonSimpleSeen bool
+	labels        []string
+	site          int
+	budget        int
+	counter       map[string]int
+	inGen         bool
+	inAsync       bool
+	inClassCtor   bool
+	inClass       int
+	sloppy        bool // program-level mode
+	inObjMethod   int  // guard js-objmethod-nested-object: no identifier-valued object literals inside methods of object literals
 }
 
 func (g *jsGen) push(fn bool) { g.sc = &jsScope{parent: g.sc, fn: fn} }
@@ -635,12 +636,14 @@ func (g *jsGen) params(declare bool) string {
 		}
 	}
 	// guard js-arguments-mapping-after-param-removal: remember whether the parameter list is simple
-	g.simpleParams = true
+	// (sticky for the rest of the program: `arguments` inside an arrow refers to an enclosing function, so the
+	// innermost list is not the one that counts)
 	for _, p := range parts {
 		if strings.ContainsAny(p, "={[.") {
-			g.simpleParams = false
+			g.nonSimpleSeen = true
 		}
 	}
+	g.simpleParams = !g.nonSimpleSeen
 	return strings.Join(parts, ",")
 }
 
